@@ -106,7 +106,8 @@ func StartProxy(o ProxyOpts) (*Proxy, error) {
 		return nil, err
 	}
 	px := &Proxy{P: p, Name: name, Cfg: cfg, res: res}
-	for i := 0; i < 5000; i++ {
+	// generous: the machine may be shared with 15 other shards and whatever else is running
+	for deadline := time.Now().Add(20 * time.Second); time.Now().Before(deadline); {
 		if a := p.Address(); a != "" {
 			px.Addr = a
 			return px, nil
@@ -114,7 +115,7 @@ func StartProxy(o ProxyOpts) (*Proxy, error) {
 		time.Sleep(200 * time.Microsecond)
 	}
 	go func() { p.Stop(); statpurge.MarkStopped(name); res.Release() }()
-	return nil, errors.New("proxy did not start listening within 1s")
+	return nil, errors.New("proxy did not start listening within 20s")
 }
 
 // Counter reads a counter of the proxy's stats by its name below "service.<name>.".
